@@ -47,7 +47,7 @@ def jobs(tier):
         mk('C15', 'idle_other_bus/AB', S.idle_other_bus(('A', 'B')), witnesses=W),
         mk('C15', 'idle_other_bus/BA', S.idle_other_bus(('B', 'A')), witnesses=W),
         mk('C15', 'flood_idle', S.flood_idle(), witnesses=W),
-        mk('C15', 'wal_unserialisable', S.wal_unserialisable(), witnesses=W),
+        mk('C15', 'wal_unserialisable', S.wal_unserialisable()),
     ]
     if tier == 'thorough':
         out += [
